@@ -39,7 +39,7 @@ class Ctx:
 
             lines, _ = docgrammar.gen_body(self.rng, self.tracer, features=self.doc_features)
             if self.rng.random() < 0.2:
-                keys = self.rng.sample(["author", "version", "date", "since", "category", "license"], self.rng.randint(1, 2))
+                keys = self.rng.sample(["author", "version", "date", "since", "category", "license", "summary"], self.rng.randint(1, 2))
                 meta = [f"{k}: zm{self.tracer}{k[0]}{i}" for i, k in enumerate(keys)]
                 self.doc_features.add("metadata")
                 if self.rng.random() < 0.5 or lines[0].startswith((" ", "@")) or ":" in lines[0]:
